@@ -89,6 +89,38 @@ func init() {
 			return ReplayResult{Confirmed: conf, Summary: sum, Inputs: map[string]string{"login_destination": v}, Output: truncate(out, 4000), Driver: "TestVerifReplayGetLoginDestination"}
 		},
 	})
+	replayDrivers = append(replayDrivers, replayDriver{
+		match: func(n string) bool { return strings.HasPrefix(n, "keymasterd.isSafeLoginDestination#") },
+		run: func(r *Report, o *Obligation, sr *SolveResult) ReplayResult {
+			m := parseModel(sr.Model)
+			v, ok := m["p_dest"]
+			if !ok {
+				return ReplayResult{Summary: "model has no value for dest"}
+			}
+			hx, exact := hexOfSMTString(v)
+			out, conf := goReplay(r, "cmd/keymasterd", "keymasterd_replay_test.go", "TestVerifReplayGetLoginDestination", map[string]string{"login_destination": hx})
+			sum := replaySummary(out)
+			if !exact {
+				sum += " (model characters above 255 reduced to bytes)"
+			}
+			if !conf {
+				// the contract's emitSafe is a sufficient condition (no segment starting with a backslash);
+				// the model names the offending segment but the segments before it need not cancel out under
+				// path.Clean. Generalise the model along path.Clean: keep the suffix from the offending
+				// segment, replace what precedes it with a self-cancelling "/x/..".
+				if b, err := hex.DecodeString(hx); err == nil {
+					if k := strings.Index(string(b), "/\\"); k > 0 {
+						alt := "/x/.." + string(b)[k:]
+						out2, conf2 := goReplay(r, "cmd/keymasterd", "keymasterd_replay_test.go", "TestVerifReplayGetLoginDestination", map[string]string{"login_destination": hex.EncodeToString([]byte(alt))})
+						if conf2 {
+							return ReplayResult{Confirmed: true, Summary: replaySummary(out2) + " (solver model " + fmt.Sprintf("%q", string(b)) + " generalised along path.Clean: prefix before the offending segment replaced by /x/..)", Inputs: map[string]string{"login_destination": alt, "solver_model": v}, Output: truncate(out2, 4000), Driver: "TestVerifReplayGetLoginDestination"}
+						}
+					}
+				}
+			}
+			return ReplayResult{Confirmed: conf, Summary: sum, Inputs: map[string]string{"login_destination": v}, Output: truncate(out, 4000), Driver: "TestVerifReplayGetLoginDestination"}
+		},
+	})
 	_ = fmt.Sprint
 	replayDrivers = append(replayDrivers, replayDriver{
 		match: func(n string) bool { return strings.HasPrefix(n, "certgen.decodeIPV4AddressChoice#") },
